@@ -261,6 +261,8 @@ class World:
             return cur
         if h.kind == 'excclass':
             return [(p, ExcV(h.name, tuple(args), origin='constructed'))]
+        if h.kind == 'rxop':
+            return [(p, Host('observable', subscribe=None, rxop=h, source=args[0], name=f'rx.{h.name}(...)'))]
         raise Unsupported(f'call of host {h.kind} {getattr(h, "name", "")}')
 
     def call_type(self, eng, p, t, args, kws):
